@@ -152,7 +152,8 @@ func c03Wire(c *lib.Ctx, g *c3Gen) {
 	for i, wc := range cases {
 		aspect, payload, observed, header := c3WireRoundtripH(wc.obj)
 		if aspect == "" {
-			if want := strings.TrimPrefix(headers[i], "ok "); want != header {
+			// the case of the hexadecimal digits is not constrained by the property
+			if want := strings.TrimPrefix(headers[i], "ok "); !strings.EqualFold(want, header) {
 				aspect, observed = "model-header", "slip header "+header+", model header "+want
 			}
 		}
